@@ -875,11 +875,19 @@ type dropResult struct {
 // positively by a predicate (os.IsNotExist(err) true, err == sentinel) counts
 // as handled.
 func errDropCheck(fn *ssa.Function, call *ssa.Call) dropResult {
+	return errDropCheckMode(fn, call, false)
+}
+
+// errDropCheckMode: with strict set, a positive classification of the error
+// (errors.Is/As, os.IsX, == sentinel) does not discharge the obligation: for
+// the error of a WRITE no classification licenses reporting success (note that
+// errors.As(nil, …) and os.IsX(nil) are false: their true edge is a non-nil edge).
+func errDropCheckMode(fn *ssa.Function, call *ssa.Call, strict bool) dropResult {
 	res := dropResult{witness: map[*ssa.Return]string{}}
 	e, _ := errorValue(call)
 	ei := ir.ErrorResultIndex(fn.Signature)
 	handled := func(st *pstate) bool {
-		if e == nil {
+		if e == nil || strict {
 			return false
 		}
 		for v, t := range st.facts {
